@@ -380,7 +380,7 @@ bool run_sim(const SimCase &c, std::string &msg) {
     msg = r.empty() ? "the child returned nothing" : r; return false;
 }
 void explore_sim(Ctx &ctx) {
-    if (!giant::fast_build()) { ctx.notes["simulated_cpus"] = "non-sanitizer builds only"; return; }
+    if (!giant::fast_build() || std::string(VERIF_VARIANT) != "mflags") { ctx.notes["simulated_cpus"] = "non-sanitizer builds of the mflags variant only (instruction encodings as in the autotools build)"; return; }
     // SSE level x AVX state x AES/PCLMUL x RDRAND; the SSE chain is downward closed (no processor has SSE4.1 without SSSE3)
     const unsigned sse_levels[] = { 0, 1u << K_SSE41, (1u << K_SSE41) | (1u << K_SSSE3), (1u << K_SSE41) | (1u << K_SSSE3) | (1u << K_SSE3), (1u << K_SSE41) | (1u << K_SSSE3) | (1u << K_SSE3) | (1u << K_SSE2) };
     const unsigned avx_states[] = { 0, 1u << K_AVX512F, (1u << K_AVX512F) | (1u << K_AVX2), 1u << K_AVX2, 1u << K_AVX, 1u << K_OSXSAVE, 1u << K_XSAVE, (1u << K_AVX) | (1u << K_AVX2) | (1u << K_AVX512F), (1u << K_OSXSAVE) | (1u << K_AVX512F) };
@@ -391,7 +391,8 @@ void explore_sim(Ctx &ctx) {
         n++;
         // quick tier: every AVX state at full SSE / AES, every SSE level without AVX, every AES state with and without AVX, one in eleven of the rest
         bool quick_pick = (s == 0 && e == 0) || (a == avx_states[7] && e == 0) || (s == 0 && (a == 0 || a == (1u << K_AVX))) || n % 11 == 0;
-        if (!(ctx.thorough() && giant::first_round()) && !quick_pick) continue;      // all 180 machines: first thorough round (they are enumerated, not seeded)
+        // all 180 machines: first thorough round of the gcc build (they are enumerated, not seeded; about half an hour); the quick selection elsewhere
+        if (!(ctx.thorough() && giant::first_round() && std::string(VERIF_FLAVOUR) == "plain") && !quick_pick) continue;
         if (!ctx.mine(idx++)) continue;
         SimCase c{ knobs };
         if (a) ctx.cls("sim:avx-state-altered"); if (s) ctx.cls("sim:sse-level-lowered"); if (e) ctx.cls("sim:aes/pclmul-absent");
